@@ -21,8 +21,6 @@ package main
 
 import (
 	"fmt"
-	"os"
-	"runtime/pprof"
 	"math/big"
 
 	"github.com/ethereum/go-ethereum/common"
@@ -48,22 +46,11 @@ func run(r *vrt.Run) {
 	// cap-interaction family (capgrid.go): nc cheap-to-execute cases walking the grid cell by
 	// cell, nh cases with a countdown-loop callee (tens of milliseconds per execution at the
 	// 2^24 scale: few, first, so that they do not form the tail of the run)
-	nc, nh := r.N(960, 48000), r.N(24, 1200)
+	nc, nh := r.N(3*capCells, 60*capCells), r.N(24, 400)
 	if r.Race() {
 		nc, nh = nc/8, nh/4
 	}
 	offset := r.Rand("capgrid-offset", 0).Intn(capCells)
-	if pf := os.Getenv("C37_DEV_PROF"); pf != "" {
-		f, _ := os.Create(pf)
-		pprof.StartCPUProfile(f)
-		defer pprof.StopCPUProfile()
-		nc = 200
-	}
-	if f := os.Getenv("C37_DEV_FAMILY"); f == "cap" {
-		n = 0
-	} else if f == "heavy" {
-		n, nc = 0, 0
-	}
 	vrt.Par(nh+nc+n, 0, func(i int) {
 		switch {
 		case i < nh:
@@ -82,6 +69,8 @@ func run(r *vrt.Run) {
 	r.Require("floor_dominated", 30)
 	r.Require("balance_limited", 30)
 	r.Require("create_estimates", 50)
+	capRequires(r, nc, nh)
+	r.Require("applied_as_transaction", int64(n)/6)
 	r.Assume("gas-monotonicity of programs flagged Monotone by lib/execenv (argument in prog.go)")
 }
 
